@@ -237,18 +237,48 @@ def compare(ws, real, model):
     rd = [d[:3] for d in real["index_diags"]]
     if md != rd:
         diffs.append("index diagnostics ranges differ: model %s real %s" % (json.dumps(md)[:300], json.dumps(rd)[:300]))
-    # document symbols <-> file_to_symbol_list (top level: one per class/def/defset/multiclass symbol, in order)
+    # document symbols: the outline computed from the model state (file_to_symbol_list, template args, fields, defset
+    # members defined in the defset's own file -- fix 28899f7) against the real document_symbol trees
     for p, fid in fids.items():
-        ms = model["file_syms"].get(str(fid))
+        mo = model_outline(model, fid)
         rs = real["symbols"].get(p)
-        if (ms is None) != (rs is None):
-            diffs.append("document_symbol of %s: model list %s real %s" % (p, "absent" if ms is None else "present", "absent" if rs is None else "present"))
-        elif ms is not None:
-            mnames = [model["syms"]["%s:%d" % (k, i)]["name"] for k, i in ms if k in ("record", "defset", "multiclass")]
-            rnames = [s["name"] for s in rs]
-            if mnames != rnames:
-                diffs.append("document symbols of %s: model %s real %s" % (p, mnames[:20], rnames[:20]))
+        if mo != rs:
+            diffs.append("document_symbol of %s differs: model %s real %s" % (p, json.dumps(mo)[:300], json.dumps(rs)[:300]))
     return diffs
+
+
+def model_outline(model, fid):
+    """handlers/document_symbol.rs over the model state dump (names, kinds, ranges, children; no type strings)"""
+    ms = model["file_syms"].get(str(fid))
+    if ms is None:
+        return None
+    syms = model["syms"]
+
+    def leaf(key, kind):
+        s = syms[key]
+        return {"name": s["name"], "kind": kind, "range": s["def"][1:], "children": []}
+
+    def record(i):
+        s = syms["record:%d" % i]
+        r = model["records"][i]
+        kids = []
+        if r["kind"] == "Class":
+            kids += [leaf("template_arg:%d" % t, "TemplateArgument") for _n, t in r["targs"]]
+        kids += [leaf("record_field:%d" % f, "Field") for _n, f in r["fields"]]
+        return {"name": s["name"], "kind": r["kind"], "range": s["def"][1:], "children": kids}
+    out = []
+    for k, i in ms:
+        if k == "record":
+            out.append(record(i))
+        elif k == "defset":
+            s = syms["defset:%d" % i]
+            kids = [record(d) for d in model["defsets"][i] if syms["record:%d" % d]["def"][0] == s["def"][0]]
+            out.append({"name": s["name"], "kind": "Defset", "range": s["def"][1:], "children": kids})
+        elif k == "multiclass":
+            s = syms["multiclass:%d" % i]
+            out.append({"name": s["name"], "kind": "Multiclass", "range": s["def"][1:],
+                        "children": [leaf("template_arg:%d" % t, "TemplateArgument") for _n, t in model["multiclasses"][i]]})
+    return out
 
 
 # --------------------------------------------------------------------------- oracles on the real observations
